@@ -62,6 +62,9 @@ def on_ready_cases() -> Any:
         # follow-up schedule): the message must carry the id of the schedule that fires
         "stale_sid": st.one_of(st.none(), st.none(), st.none(), st.sampled_from(["earlier", "first-schedule", ""])),
         "pre_edit": st.sampled_from([None, None, None, "stamp", "replace"]),
+        # where the source's hooks live: in its class body, in a base class it inherits from, or bound on the instance (callbacks handed
+        # to the constructor, a mock): `source.pre_send(task)` reaches them in every case
+        "bind": st.sampled_from(["class", "class", "inherited", "instance"]),
     })
 
 
@@ -144,11 +147,15 @@ def run_on_ready(c: Dict[str, Any]) -> Outcome:
     ns["get_schedules"] = get_schedules
     pre = mk("pre_send", c["pre"], c["cancel"])
     post = mk("post_send", c["post"], False)
-    if pre:
-        ns["pre_send"] = pre
-    if post:
-        ns["post_send"] = post
+    bind = c.get("bind", "class")
+    if bind != "instance":
+        if pre:
+            ns["pre_send"] = pre
+        if post:
+            ns["post_send"] = post
     Src = type("Src", (ScheduleSource,), ns)
+    if bind == "inherited":
+        Src = type("AppSrc", (Src,), {"__doc__": "inherits the hooks"})
     cancels = c["cancel"] and c["pre"] != "none"
 
     async def go() -> Any:
@@ -158,6 +165,13 @@ def run_on_ready(c: Dict[str, Any]) -> Outcome:
         if c["codec"] == "jsonfmt":
             b.formatter = JSONFormatter()
         src = Src()
+        if bind == "instance":
+            import types
+
+            if pre:
+                src.pre_send = types.MethodType(pre, src)       # type: ignore[method-assign]
+            if post:
+                src.post_send = types.MethodType(post, src)     # type: ignore[method-assign]
         sched = TaskiqScheduler(b, [src])
         kw = {"cron": "* * * * *"} if c["kind"] == "cron" else {"time": T0}
         if c.get("stale_sid") is not None:
@@ -460,6 +474,7 @@ def make_machine(ctx: Any, ctx_state: Dict[str, Any]) -> Any:
 def parts(tier: str) -> List[Part]:
     if tier == "thorough":
         return [Part("on_ready", "given", shards=8, examples=12000, strategy=on_ready_cases, soft_deadline_s=3000),
+                Part("on_ready_cov", "covguided", shards=4, examples=12000, strategy=on_ready_cases, soft_deadline_s=3000),     # libFuzzer-driven, coverage of `taskiq` as guidance
                 Part("label_source", "machine", shards=8, examples=6000, machine=make_machine, steps=25, soft_deadline_s=3000)]
     return [Part("on_ready", "given", shards=4, examples=600, strategy=on_ready_cases, soft_deadline_s=100),
             Part("label_source", "machine", shards=4, examples=250, machine=make_machine, steps=15, soft_deadline_s=120)]
